@@ -52,6 +52,34 @@ DDSMT_FILES = {
 }
 
 
+# would-be cycles (members written out): the command accepts exactly these.
+# Each was found by the sweeps described in DESIGN.md 12; the strategies must
+# still stop on them as far as their own safeguards go (ddmin's progress
+# measure ends a round without net reduction).
+CYCLE_CORPUS = [
+    {
+        'name': 'term-variable (EliminateVariable + ReplaceByVariable)',
+        'decl': '(declare-const x Int)\n(declare-const y Int)\n'
+                '(declare-fun p (Int) Bool)\n',
+        'members': [
+            '(assert (= x (+ y 1)))\n(assert (p (+ y 1)))\n',
+            '(assert (= x (+ y 1)))\n(assert (p x))\n',
+            '(assert (= (+ y 1) (+ y 1)))\n(assert (p (+ y 1)))\n',
+        ],
+    },
+    {
+        'name': 'term-variable, reals (EliminateVariable + ReplaceByVariable)',
+        'decl': '(declare-const r Real)\n(declare-const s Real)\n'
+                '(declare-fun q (Real) Bool)\n',
+        'members': [
+            '(assert (= r (* s 2.0)))\n(assert (q (* s 2.0)))\n',
+            '(assert (= r (* s 2.0)))\n(assert (q r))\n',
+            '(assert (= (* s 2.0) (* s 2.0)))\n(assert (q (* s 2.0)))\n',
+        ],
+    },
+]
+
+
 class C03(props.Prop):
     id = 'C03'
     title = 'Minimisation always terminates: no mutation cycles, no-ops, hanging mutators'
@@ -104,6 +132,20 @@ class C03(props.Prop):
                 ERASERS, rng.randint(2, len(ERASERS)))]
         if rng.random() < 0.2:
             spec['opts'].append('--check-loops')
+        if rng.random() < 0.1:
+            # a command that accepts exactly the members of a would-be cycle
+            c = rng.choice(CYCLE_CORPUS)
+            tail = '(check-sat)\n'
+            texts = [c['decl'] + m + tail for m in c['members']]
+            spec = workload.base_spec(
+                rng, jobs=(1, 1, 2), out_modes=('', ),
+                strategies=('ddmin', 'ddmin', 'hybrid', 'hierarchical'),
+                text=texts[0])
+            spec['model']['rules'] = [[{
+                'k': 'member',
+                'digs': [reftok.digest(reftok.tokenize(t)) for t in texts]
+            }, 'bug']]
+            spec['corpus'] = c['name']
         spec['jump_budget'] = JUMP_BUDGET
         spec['sched']['step_cap'] = 1500000
         spec['sched']['wall_cap'] = 12.0
@@ -255,9 +297,14 @@ class C03(props.Prop):
         # adopted a few times at most (the listed cycles are walked twice)
         if strat in ('ddmin', 'hybrid'):
             cnt = {}
+            last = None
             for w in rec.writes:
                 if _in_ddmin(rec, w) or strat == 'ddmin':
-                    cnt[w['sdig']] = cnt.get(w['sdig'], 0) + 1
+                    # entries into an input from a different one (vacuous
+                    # re-adoptions of the current input do not count)
+                    if w['sdig'] != last:
+                        cnt[w['sdig']] = cnt.get(w['sdig'], 0) + 1
+                    last = w['sdig']
             distinct_steps = len(cnt)
             worst = max(cnt.values()) if cnt else 0
             if worst >= 8 and distinct_steps >= 2 and not any(
@@ -330,12 +377,13 @@ def _changes_inside(a, b, head):
 
 
 def _in_ddmin(rec, w):
-    for which, a, b in rec.reduce_spans:
-        if which == 'ddmin' and a <= w['seq0'] <= b:
-            return True
-    # the ddmin span is closed only when reduce returns; a write before any
-    # hierarchical reduce started belongs to ddmin
-    return False
+    """Was this output write made by the ddmin strategy?"""
+    starts = getattr(rec, 'reduce_starts', [])
+    cur = None
+    for which, seq in starts:
+        if seq <= w['seq0']:
+            cur = which
+    return cur == 'ddmin'
 
 
 def _set_p(pred, p):
